@@ -307,8 +307,8 @@ pub fn prop06() -> Prop {
         describe: describe06,
         rule: "wide generated games (up to 600 nodes, generic real payoffs) x presets and random parameter tuples x T in 1..8 (rarely 50) x k in 2..16 threads, 3 repeated k-thread runs each under injected yields and 16-way oversubscription, optionally a threshold between two bound values; oracle: differential against the same call with one thread (strategies within 1e-6, bounds within 1e-6 relative), applied only up to the last iteration the reference model's conditioning guard classifies as robust to summation order. Non-trivial = at least 2 parallel tasks started in some iteration (counted by the task hook) and T >= 2; distinct by (tree, parameters, T, k).",
         max_len: 1400,
-        cases_quick: 4_000,
-        cases_thorough: 150_000,
+        cases_quick: 6_000,
+        cases_thorough: 200_000,
         assumptions: &[
             "real threads: the harness does not own the scheduler; interleaving-dependent lost updates are sought statistically only",
             "comparison skipped beyond the first iteration whose regret-matching branch lies within 1e-9 of a discontinuity",
@@ -326,8 +326,8 @@ pub fn prop07() -> Prop {
         describe: describe07,
         rule: "as C06 with the chance-sampled and external-sampled methods and every draw replaced, through the sampling hook, by a pure function of (site kind, infoset, pass, weights): proportional inverse CDF on a hashed variate, uniform over the support, first, last, scripted; oracle: k threads versus one thread: strategies, bounds, and the draw logs (same set of (kind, infoset, pass), same presented weights within 1e-9, at most one draw per infoset and pass, no panic). Non-trivial = at least 2 parallel tasks, T >= 2 and at least one draw; distinct by (tree, parameters, T, k, decision function).",
         max_len: 1400,
-        cases_quick: 4_000,
-        cases_thorough: 150_000,
+        cases_quick: 6_000,
+        cases_thorough: 200_000,
         assumptions: &[
             "real threads: the harness does not own the scheduler",
             "cases where a draw lies within 1e-9 of a cumulative boundary or a weight within (0,1e-6) are discarded",
